@@ -43,11 +43,14 @@ def gen_case(rng):
     base = [(39.7539, -104.974), (39.7539 + 0.0004, -104.974 + 0.0005), (39.78, -104.93)]
     geoids = [h3.geo_to_h3(la, lo, 15) for la, lo in base]
     cfg = ml.mock_config()
-    cfg = cfg._replace(sim=cfg.sim._replace(request_cancel_time_seconds=cancel, timestep_duration_seconds=delta))
+    # the resolution of the coarse search index differs from case to case (all cases of a run share the station positions, the
+    # regions naming them and one process: which stations a region names must not depend on an earlier simulation).  Own stream.
+    search_res = random.Random(f'search-res|{t0}|{delta}|{cancel}').choice([10, 10, 9, 11, 12, 8, 7, 5])
+    cfg = cfg._replace(sim=cfg.sim._replace(request_cancel_time_seconds=cancel, timestep_duration_seconds=delta, sim_h3_search_resolution=search_res))
     env = ml.mock_env(config=cfg, fleet_ids=frozenset(fleets))
     n_st = rng.randint(1, 3)
     stations = [ml.mock_station_from_geoid(f's{k}', geoids[k], chargers={'DCFC': 1, 'LEVEL_2': 1}, env=env) for k in range(n_st)]
-    sim = ml.mock_sim(sim_time=t0, sim_timestep_duration_seconds=delta, stations=tuple(stations))
+    sim = ml.mock_sim(sim_time=t0, sim_timestep_duration_seconds=delta, stations=tuple(stations), h3_search_res=search_res)
     horizon = t0 + n_steps * delta
     # request rows: bursts, gaps, identical timestamps, some before the start (late admission / expired on arrival)
     rows, t = [], t0 - rng.choice([0, 0, cancel // 2, cancel + 5, 2 * cancel + 50])
